@@ -210,6 +210,32 @@ class guard(object):
 
 # ---------------------------------------------------------------------------
 
+class case_watchdog(object):
+    """A case that normally takes milliseconds but has not finished after
+    `seconds` is a runaway (an infinite loop in the code under test, e.g. a
+    match that is never consumed).  The margin is four orders of magnitude, so
+    machine load cannot trigger it.  Main thread of a worker process only."""
+
+    def __init__(self, seconds, what='case'):
+        self.seconds = seconds
+        self.what = what
+
+    def _fire(self, signum, frame):
+        raise Violation('runaway', '%s did not finish within %d s (normal: milliseconds)' % (self.what, self.seconds))
+
+    def __enter__(self):
+        import signal
+        self._old = signal.signal(signal.SIGALRM, self._fire)
+        signal.setitimer(signal.ITIMER_REAL, self.seconds)
+        return self
+
+    def __exit__(self, *a):
+        import signal
+        signal.setitimer(signal.ITIMER_REAL, 0)
+        signal.signal(signal.SIGALRM, self._old)
+        return False
+
+
 def hyp_settings(max_examples, shrink=True, stateful_step_count=None):
     from hypothesis import settings, HealthCheck, Phase
     phases = [Phase.explicit, Phase.generate]
@@ -239,10 +265,15 @@ def hyp_run(body, strategy, n, seed, col, shrink=True, deadline_ts=None):
         if deadline_ts is not None and time.time() > deadline_ts:
             col.inconclusive = True
             return
+        if state.get('runaway'):
+            # do not pay the watchdog delay again and again while shrinking
+            raise Violation(*state['runaway'][:2])
         try:
             body(case, col)
         except Violation as v:
             state['last'] = (v.key, v.what, case)
+            if v.key == 'runaway':
+                state['runaway'] = state['last']
             raise
 
     test = given(strategy)(test)
